@@ -246,7 +246,7 @@ class SessionDriver:
         self.history.append([name] + [str(a) for a in args])
         return ev
 
-    def probe(self, m):
+    def probe(self, m, drop_caches=True):
         """Deterministic evaluation-mode probes of the function a model computes."""
         torch = self.torch
         e = self.e
@@ -258,7 +258,7 @@ class SessionDriver:
         from nflows.transforms.linear import Linear
 
         for mod in m.modules():
-            if isinstance(mod, Linear):
+            if isinstance(mod, Linear) and drop_caches:
                 mod.cache.invalidate()
         outs = []
         try:
@@ -303,7 +303,9 @@ class SessionDriver:
             m2.load_state_dict(sd)
         except Exception as ex:  # noqa
             err = repr(ex)[:200]
-        after = self.probe(m2)
+        # the reloaded model is probed as the load left it (its caches included): both models then fill
+        # their caches along the same sequence of calls
+        after = self.probe(m2, drop_caches=False)
         same = err is None and len(before) == len(after)
         diff_op = None
         if same:
